@@ -81,10 +81,10 @@ Proof.
   - eapply mem_rest_unhooked; eauto. apply mem_top_rest. exact Hm.
 Qed.
 
-Lemma step_Throw : forall st s, Inv st s -> flight st = false ->
+Lemma Inv_throw : forall st s, Inv st s -> exc st = false ->
   Inv (mk st (frames st) true true 0 []) (do_throw s).
 Proof.
-  intros st s H Hf. pose proof (exc_false_of_flight _ _ H Hf) as He.
+  intros st s H He.
   pose proof (Inv_rs_plain _ _ H He) as Hrs.
   constructor; simpl.
   - exact (i_sorted _ _ H).
@@ -101,6 +101,10 @@ Proof.
   - intros _. constructor.
   - intros _. constructor.
 Qed.
+
+Lemma step_Throw : forall st s, Inv st s -> flight st = false ->
+  Inv (mk st (frames st) true true 0 []) (do_throw s).
+Proof. intros st s H Hf. apply Inv_throw; [exact H|]. eapply exc_false_of_flight; eauto. Qed.
 
 Lemma step_Unwind : forall st s f rest, Inv st s -> frames st = f :: rest -> exc st = true -> extra st = 0 ->
   Inv (mk st rest true true 0 (match f_pend f with [] => stale st | _ => f_slot f :: stale st end)) s.
@@ -136,56 +140,8 @@ Proof.
   - intros _. constructor.
 Qed.
 
-Lemma mem_N_false : forall x l, mem_N x l = false -> ~ In x l.
-Proof.
-  induction l as [|y r IH]; simpl; intros H Hin; [exact Hin|]. apply orb_false_elim in H. destruct H as [H1 H2].
-  destruct Hin as [Hin|Hin]; [subst; rewrite N.eqb_refl in H1; discriminate|exact (IH H2 Hin)].
-Qed.
-
 Lemma base_extra0 : forall st, extra st = 0 -> base st = frames st.
 Proof. intros st H. unfold base. rewrite H. reflexivity. Qed.
-
-Lemma step_Resume : forall st s sl r, Inv st s -> flight st = true -> below_top (frames st) sl = true ->
-  valid_ra r = true -> extra st = 0 -> mem_N sl (stale st) = false ->
-  let s1 := do_throw (with_m s (upd (m s) sl r)) in
-  m s1 sl = r /\ Inv (mk st (frames st) true true 0 (stale st)) s1.
-Proof.
-  intros st s sl r H Hf Hb Hv Hx Hns s1.
-  pose proof (below_top_lt_all _ _ (i_sorted _ _ H) Hb) as Hlt.
-  destruct (i_shadow _ _ H) as [S [L [S1 [S2 [S3 S4]]]]].
-  assert (HSloc : forall e, In e S -> lt_all (e_loc e) (frames st)).
-  { intros e Hin. destruct (exc st) eqn:He.
-    - pose proof (i_stale _ _ H He) as Hst. rewrite (base_extra0 _ Hx) in Hst. rewrite Forall_forall in Hst. apply Hst. apply S3. exact Hin.
-    - rewrite (S4 eq_refl) in Hin. contradiction. }
-  assert (Hm1 : m s1 = restore_all_p (shadow (frames st)) (restore_all_p (map proj S) (upd (m s) sl r))).
-  { unfold s1, do_throw; simpl. rewrite restore_all_proj, S1, map_app, restore_all_p_app, S2. reflexivity. }
-  split.
-  - rewrite Hm1. rewrite restore_all_p_other by (intros x Hin; eapply shadow_loc_ne; eauto).
-    rewrite restore_all_p_other; [apply upd_same|].
-    intros x Hin. apply in_map_iff in Hin. destruct Hin as [e [Hpe Hin]]. subst x. unfold p_loc, proj; simpl.
-    intro Heq. apply (mem_N_false _ _ Hns). rewrite <- Heq. apply S3. exact Hin.
-  - constructor; simpl.
-    + exact (i_sorted _ _ H).
-    + exact (i_valid _ _ H).
-    + eapply ids_ok_gen with (st := st); [exact (i_ids _ _ H)|simpl; lia|reflexivity|exact (proj1 (i_ids _ _ H))].
-    + eapply jb_inv_mono with (st := st) (s := s); [exact (i_jb _ _ H)|reflexivity|reflexivity|reflexivity|auto].
-    + reflexivity.
-    + reflexivity.
-    + exact (i_nolj _ _ H).
-    + exists S, L. repeat split; auto. intros; discriminate.
-    + change (mem_exc (m s1) (frames st)). rewrite Hm1.
-      apply restore_all_shadow_exc; [exact (i_sorted _ _ H)|exact (i_valid _ _ H)|].
-      intros f Hin Hp. rewrite restore_all_p_other.
-      * rewrite upd_other; [eapply unhooked_real; eauto|].
-        unfold lt_all in Hlt. rewrite Forall_forall in Hlt. specialize (Hlt f Hin). lia.
-      * intros x Hx'. apply in_map_iff in Hx'. destruct Hx' as [e [Hpe Hine]]. subst x. unfold p_loc, proj; simpl.
-        specialize (HSloc e Hine). unfold lt_all in HSloc. rewrite Forall_forall in HSloc. specialize (HSloc f Hin). lia.
-    + intros; discriminate.
-    + intros _. unfold base; simpl. destruct (exc st) eqn:He.
-      * pose proof (i_stale _ _ H He) as Hst. rewrite (base_extra0 _ Hx) in Hst. exact Hst.
-      * rewrite (i_stale0 _ _ H He). constructor.
-    + intros _. constructor.
-Qed.
 
 Lemma shadow_loc_ge_top : forall f r y, sorted (f :: r) -> In y (shadow (f :: r)) -> f_slot f <= p_loc y.
 Proof.
@@ -275,6 +231,46 @@ Proof.
     specialize (Hst x Hin). rewrite HF in Hst. inversion Hst; subst. lia.
   - intros y Hin. rewrite HF in Hin. pose proof (i_sorted _ _ H) as Hs. rewrite HF in Hs.
     pose proof (shadow_loc_ge_top f rest y Hs Hin). lia.
+Qed.
+
+(* memory outside the live hooked slots is not touched by the re-hook *)
+Lemma rehook_exception_mem_other : forall st s fa a, Inv st s -> exc st = true ->
+  (forall x, In x (stale st) -> x <= fa) -> (forall y, In y (shadow (frames st)) -> fa < p_loc y) ->
+  (forall y, In y (shadow (frames st)) -> p_loc y <> a) -> m (rehook_exception s fa) a = m s a.
+Proof.
+  intros st s fa a H He Hst Hsh Ha.
+  destruct (i_shadow _ _ H) as [S [L [S1 [S2 [S3 S4]]]]].
+  pose proof (i_mem _ _ H) as Hm. rewrite He in Hm.
+  destruct (rehook_exception_spec s fa (frames st) S L S1 S2 (i_sorted _ _ H) (i_valid _ _ H) (i_nolj _ _ H))
+    as [_ [_ [_ [R4 _]]]]; [intros e Hin; apply Hst; apply S3; exact Hin|exact Hsh|exact Hm|].
+  apply R4. exact Ha.
+Qed.
+
+(* the _Unwind_Resume wrapper (after fix 0bd540c): the entries of the frames dropped so far go first *)
+Lemma step_Resume : forall st s sl r, Inv st s -> flight st = true -> below_top (frames st) sl = true ->
+  valid_ra r = true -> extra st = 0 -> (forall x, In x (stale st) -> x <= sl) ->
+  m (do_resume (with_m s (upd (m s) sl r)) sl) sl = r /\
+  Inv (mk st (frames st) true true 0 []) (do_resume (with_m s (upd (m s) sl r)) sl).
+Proof.
+  intros st s sl r H Hf Hb Hv Hx Hst.
+  pose proof (below_top_lt_all _ _ (i_sorted _ _ H) Hb) as Hlt.
+  pose proof (step_Poke st s sl r H Hb) as H0. set (s0 := with_m s (upd (m s) sl r)) in *.
+  assert (Hsh : forall y, In y (shadow (frames st)) -> sl < p_loc y) by (intros y Hin; eapply shadow_loc_gt; eauto).
+  assert (Hne : forall y, In y (shadow (frames st)) -> p_loc y <> sl) by (intros y Hin; specialize (Hsh y Hin); lia).
+  unfold do_resume. destruct (exc st) eqn:He.
+  - assert (Hi0 : inexc s0 = true) by (rewrite (i_excb _ _ H0); exact He). rewrite Hi0.
+    pose proof (Inv_after_rehook st s0 sl true H0 He Hx Hst Hsh) as H1.
+    set (sR := with_exc (rehook_exception s0 sl) false) in *.
+    change (do_throw (rehook_exception s0 sl)) with (do_throw sR).
+    pose proof (Inv_throw _ _ H1 eq_refl) as H2. split; [|exact H2].
+    unfold do_throw; cbn [m]. rewrite restore_all_proj. rewrite (Inv_rs_plain _ _ H1 eq_refl). cbn [frames mk].
+    rewrite restore_all_p_other by exact Hne.
+    unfold sR; cbn [m with_exc]. rewrite (rehook_exception_mem_other st s0 sl sl H0 He Hst Hsh Hne).
+    unfold s0; cbn [m with_m]. apply upd_same.
+  - assert (Hi0 : inexc s0 = false) by (rewrite (i_excb _ _ H0); exact He). rewrite Hi0.
+    pose proof (Inv_throw _ _ H0 He) as H2. split; [|exact H2].
+    unfold do_throw; cbn [m]. rewrite restore_all_proj. rewrite (Inv_rs_plain _ _ H0 He).
+    rewrite restore_all_p_other by exact Hne. unfold s0; cbn [m with_m]. apply upd_same.
 Qed.
 
 (* ================================================================ pushing a hooked frame *)
